@@ -85,6 +85,23 @@ mut("oas_r_path_relative_x", L, "                path->spine.append(modal_geom_p
 mut("oas_r_text_x_relative", L, "                    if (modal_absolute_pos) {\n                        modal_text_pos.x = x;\n                    } else {\n                        modal_text_pos.x += x;\n                    }", "                    modal_text_pos.x = x;", ["C04"])
 mut("oas_r_placement_explicit_by_name_modal", L, "                        reference->name = copy_string(modal_placement_cell->name, NULL);", "                        reference->name = copy_string(modal_placement_cell->name, NULL);\n                        reference->name[0] = reference->name[0] ? (char)(reference->name[0] ^ 1) : 0;", ["C04"])
 
+# ---- batch 3: compact shapes, properties, modal resets, OASIS writer records
+mut("oas_r_ctrap20", L, "                        v[1].x += 2 * modal_geom_dim.y;\n                        v[2] += modal_geom_dim.y;\n                        modal_geom_dim.x = 2 * modal_geom_dim.y;",
+    "                        v[1].x += 2 * modal_geom_dim.y;\n                        v[2].x += modal_geom_dim.y;\n                        modal_geom_dim.x = 2 * modal_geom_dim.y;", ["C04"])
+mut("oas_r_ctrap22", L, "                        v[1] += modal_geom_dim.x;\n                        v[2].y += 2 * modal_geom_dim.x;", "                        v[1] += modal_geom_dim.x;\n                        v[2].y += modal_geom_dim.x;", ["C04"])
+mut("oas_r_ctrap9", L, "                    case 9:\n                        v[3].y -= modal_geom_dim.x;", "                    case 9:\n                        v[3].y += modal_geom_dim.x;", ["C04"])
+mut("oas_r_ctrap13", L, "                        v[0].y += modal_geom_dim.x;\n                        v[3].y -= modal_geom_dim.x;", "                        v[0].y += modal_geom_dim.x;\n                        v[2].y -= modal_geom_dim.x;", ["C04"])
+mut("oas_r_ctrap25", L, "v[2].y = v[3].y = modal_geom_pos.y + modal_geom_dim.x;", "v[2].y = v[3].y = modal_geom_pos.y + modal_geom_dim.y;", ["C04"])
+mut("oas_r_trap_delta_b", L, "                        q->x = s->x + delta_b;", "                        q->x = s->x - delta_b;", ["C04"])
+mut("oas_r_circle_radius", L, "modal_circle_radius = factor * oasis_read_unsigned_integer(in);", "modal_circle_radius = 0.5 * factor * oasis_read_unsigned_integer(in);", ["C04"])
+mut("oas_r_prop_count15", L, "                    if (num_values == 15) {", "                    if (num_values == 14) {", ["C04"])
+mut("oas_r_cell_resets_geom_pos", L, "                modal_geom_pos = Vec2{0, 0};\n                modal_text_pos = Vec2{0, 0};", "                modal_text_pos = Vec2{0, 0};", ["C04"])
+mut("oas_r_cell_resets_xy_mode", L, "                modal_absolute_pos = true;\n                modal_placement_pos = Vec2{0, 0};", "                modal_placement_pos = Vec2{0, 0};", ["C04"])
+mut("oas_w_placement_negative_quarter", L, "info |= ((uint8_t)(0x03 & ((m % 4) + 4))) << 1;", "info |= ((uint8_t)(0x03 & (-m % 4))) << 1;", ["C02", "C04"])
+mut("oas_w_placement_angle_abs", L, "oasis_write_real(out, ref->rotation * (180.0 / M_PI));", "oasis_write_real(out, fabs(ref->rotation) * (180.0 / M_PI));", ["C02", "C04"])
+mut("oas_w_text_layer_type_swapped", L, "            oasis_write_unsigned_integer(out, get_layer(label->tag));\n            oasis_write_unsigned_integer(out, get_type(label->tag));\n            oasis_write_integer(out, (int64_t)llround(label->origin.x",
+    "            oasis_write_unsigned_integer(out, get_type(label->tag));\n            oasis_write_unsigned_integer(out, get_layer(label->tag));\n            oasis_write_integer(out, (int64_t)llround(label->origin.x", ["C02", "C04"])
+
 
 def sh(cmd, **kw):
     return subprocess.run(cmd, stdout=subprocess.PIPE, stderr=subprocess.STDOUT, text=True, **kw)
